@@ -44,7 +44,11 @@ func (c *Ctx) closureCalls(fn *ssa.Function, slot string) []*ssa.Call {
 	return out
 }
 
-func (c *Ctx) ruleDispatch() {
+func (c *Ctx) ruleDispatch() { c.ruleDispatchFor(nil) }
+
+// ruleDispatchFor: the dispatch rule for the named dispatchers only (nil = all,
+// plus the push path and the setters).
+func (c *Ctx) ruleDispatchFor(only map[string]bool) {
 	rep := c.rep
 	specs := []dispatchSpec{
 		{fn: "Stack.IsEqual", slot: "eqf", defs: []string{"(*stack).isEqual"}, results: [][2]int{{0, 0}}},
@@ -60,6 +64,9 @@ func (c *Ctx) ruleDispatch() {
 		{fn: "Condition.Evaluate", slot: "evl", results: [][2]int{{0, 0}, {1, 1}}},
 	}
 	for _, sp := range specs {
+		if only != nil && !only[sp.fn] {
+			continue
+		}
 		fn := c.anchor("R-DISPATCH", sp.fn)
 		if fn == nil {
 			continue
@@ -82,7 +89,8 @@ func (c *Ctx) ruleDispatch() {
 		}
 		callT := c.eng.tt.mk(Term{K: "V", V: call})
 		var problems []string
-		nClosure, nDefault := 0, 0
+		nClosure, nDefault, nEarly, nUninit := 0, 0, 0, 0
+		_ = nUninit
 		for _, rs := range fa.rets {
 			s := rs.st
 			did, _ := s.get(aDID, callT)
@@ -125,6 +133,16 @@ func (c *Ctx) ruleDispatch() {
 					if len(sp.defs) > 0 && !ranDefault {
 						problems = append(problems, "with no closure installed a path returns without running the built-in implementation")
 					}
+				} else if (&roAnalysis{c: c}).initFalse(fa, s, 0) {
+					// an uninitialised receiver has no configuration, hence no closure
+					nUninit++
+				} else if !s.dead {
+					// an exit taken before the closure was looked at: it may only refuse (an error, false,
+					// the empty string) - a positive verdict must come from the closure when one is installed
+					nEarly++
+					if msg := c.refusalOnly(fa, s, rs.ret); msg != "" {
+						problems = append(problems, "a path returns "+msg+" without having consulted the installed closure or run the built-in implementation")
+					}
 				}
 			}
 		}
@@ -135,10 +153,13 @@ func (c *Ctx) ruleDispatch() {
 			problems = append(problems, "no return path runs the built-in implementation when the slot is nil")
 		}
 		if len(problems) == 0 {
-			rep.ok("R-DISPATCH", sp.fn, "closure "+sp.slot, pos, fmt.Sprintf("%d path(s) return the closure's verdict without the built-in code; %d path(s) with no closure run the built-in code", nClosure, nDefault))
+			rep.ok("R-DISPATCH", sp.fn, "closure "+sp.slot, pos, fmt.Sprintf("%d path(s) return the closure's verdict without the built-in code; %d path(s) with no closure run the built-in code; %d earlier exit(s) only refuse", nClosure, nDefault, nEarly))
 		} else {
 			rep.bad("R-DISPATCH", sp.fn, "closure "+sp.slot, pos, strings.Join(uniq(sortedCopy(problems)), "; "))
 		}
+	}
+	if only != nil {
+		return
 	}
 	// push: policy path and generic path are exclusive
 	if fn := c.anchor("R-DISPATCH", "(*stack).push"); fn != nil {
@@ -390,4 +411,41 @@ func (c *Ctx) ruleBasicRefusal() {
 			rep.ok("R-BASIC", relName(fn), "render gated by canString", c.p.pos(fn.Pos()), fmt.Sprintf("%d rendering call sites are dominated by canString()==true", len(sites)))
 		}
 	}
+}
+
+// refusalOnly: the results of this return are a refusal - a non-nil error when
+// the function has an error result, otherwise false / the empty string.
+// Returns a description of the offending result, or "".
+func (c *Ctx) refusalOnly(fa *FnAnalysis, s *State, ret *ssa.Return) string {
+	sig := fa.fn.Signature.Results()
+	hasErr := false
+	for i := 0; i < sig.Len(); i++ {
+		if types.Identical(sig.At(i).Type(), types.Universe.Lookup("error").Type()) {
+			hasErr = true
+			if v, known := fa.nonNil(s, ret.Results[i]); !known || !v {
+				return "a possibly nil error"
+			}
+		}
+	}
+	if hasErr {
+		return ""
+	}
+	for i := 0; i < sig.Len(); i++ {
+		bt, ok := sig.At(i).Type().Underlying().(*types.Basic)
+		if !ok {
+			continue
+		}
+		switch {
+		case bt.Kind() == types.Bool:
+			if v, known := fa.knownTerm(s, aTR, fa.term(s, ret.Results[i])); !known || v {
+				return "a possibly true verdict"
+			}
+		case bt.Kind() == types.String:
+			t := fa.term(s, ret.Results[i])
+			if !(t.K == "C" && t.S == `""`) {
+				return "a possibly non-empty text"
+			}
+		}
+	}
+	return ""
 }
